@@ -69,6 +69,10 @@ STRINGS = ['""', '"s"', '"abc"', '" "', '"a b"', '"\\""', '"\\\\"', '"\\/"', '"\
            '"\\u0041"', '"\\u00e9"', '"\\u00E9"', '"\\uD83D\\uDE00"', '"\\ud800"', '"\\udc00x"', '"é"', '"日本"', '"😀"',
            '"a\u007fb"', '" "', '" "', '"﻿"', '"/"', '"{[,:]}"', '"true"', '"1"', '"\\\\u0041"',
            '"\\"\\\\\\/\\b\\f\\n\\r\\t"', '"\U0010ffff"', '"\\u0000"']
+# a few LONG lexemes (beyond 256 / 1024 / 4096 bytes): which number, which string must not matter at any length
+LONG_NUMBERS = ["1" * 40 + "." + "5" * 300, "-" + "9" * 1100 + "e-1100", "0." + "0" * 4200 + "1"]
+LONG_STRINGS = ['"' + "x" * 300 + '"', '"' + "\\u00e9" * 180 + '"', '"' + "\u00e9" * 2100 + '"', '"' + "y" * 4200 + '\\n"']
+P_LONG = 0.015           # per scalar: rare enough not to inflate the mutation families built on rendered seeds
 KEYS = ['a', 'b', 'c', 'd', 'ab', 'a b', '', 'é', '日本', '😀', '\\n', '\\u007a', '\\"', 'A', 'type', 'a.b', '\\\\', '0']
 
 def render(d, rng, ws=WS, keys_raw=True):
@@ -82,9 +86,9 @@ def render(d, rng, ws=WS, keys_raw=True):
         elif d == 't':
             out.append(rng.choice(["true", "false"]))
         elif d == '1':
-            out.append(rng.choice(NUMBERS))
+            out.append(rng.choice(LONG_NUMBERS if rng.random() < P_LONG else NUMBERS))
         elif d == 's':
-            out.append(rng.choice(STRINGS))
+            out.append(rng.choice(LONG_STRINGS if rng.random() < P_LONG else STRINGS))
         elif isinstance(d, list):
             out.append("["); w()
             for i, e in enumerate(d):
@@ -191,6 +195,32 @@ def rand_unicode(rng, n):
             s.append(chr(rng.randrange(0x10000, 0x110000)))
     return "".join(s)
 
+def scale_texts(rng, big=False):
+    """texts at unusual lexical scale: strings / member names / numbers / white-space runs of 255..65537
+    characters, straddling powers of two, valid and invalid (unterminated, raw control character or bad escape at
+    the far end, a multi-byte character across the boundary), wide arrays and objects, nesting 120..256 with
+    content at every level.  A threshold in the lexer or the walk (a buffer, a fast path for short tokens, a
+    narrowed index) is never reached by small random texts.  big=True: the same families at 64 KiB / 1 MiB, for the
+    implementation-side checks only (the extracted model is too slow there)."""
+    out = []
+    for n in ((255, 256, 257, 1023, 1024, 1025, 4095, 4096, 4097) if not big else (65535, 65536, 65537, 1048577)):
+        body = "a" * n
+        out += ['"%s"' % body, '{"%s":1}' % body, '["%s",1]' % body, '{"k":"%s","%s":[]}' % (body, body[: n // 2]),
+                '"%s' % body, '{"%s:1}' % body, '"%s\n"' % body[:-1], '"%s\\n%s"' % (body, "b" * 3), '"%s\\q"' % body,
+                '"%s\\u00e9"' % body, '"%s\\ud83d\\ude00"' % body, '"%s\u00e9"' % body[:-1], '"%s\U0001f600%s"' % (body[:-2], "z"),
+                '"%s\\ud83d"' % body, '"%s\x01"' % body]
+        if n <= 1025 or big:
+            out += ["1" * n, "-0." + "1" * n, "1e" + "9" * n, "1E-" + "0" * n + "1", "0" + "1" * n, "1." + "0" * n + "e", "[" + "1" * n + ",\"s\"]",
+                    " " * n + "1", "1" + "\n" * n, "[" + " \r\n" * (n // 3) + "]", "{" + "\t" * n + '"a"' + " " * n + ":" + "\n" * n + "1}",
+                    "\r" * n + "[]", " " * n, "1" + " " * n + "2"]
+    for n in ((300, 700) if not big else (70000,)):      # the model's span computation is quadratic in the node count
+        out += ["[" + ",".join(["1"] * n) + ',"s"]', "[" + ",".join(["1"] * n) + ",]", "{" + ",".join('"k%d":%d' % (i, i) for i in range(n)) + "}",
+                "{" + ",".join('"k%d":%d' % (i, i) for i in range(n)) + ",}", "[" + ",".join('{"a":1}' for _ in range(n)) + ',{"a":"s"}]'[:0] + "]"]
+    for d in ((120, 127, 128, 129, 200, 255, 256, 257) if not big else ()):
+        out += ["[1," * d + "2" + "]" * d, '{"a":[' * (d // 2) + "null" + "]}" * (d // 2), "[1," * d + "]" * d, '{"a":' * d + "1" + "}" * (d - 1),
+                "[[]," * (d - 1) + "[]" + "]" * (d - 1)]
+    return list(dict.fromkeys(out))
+
 def text_stream(rng, n_docs, n_mut_per_seed, n_rand):
     """(class, text) pairs: rendered valid documents, the malformed stream, negatives, depth
     family, arbitrary Unicode"""
@@ -199,7 +229,7 @@ def text_stream(rng, n_docs, n_mut_per_seed, n_rand):
         d = rand_text_doc(rng, rng.choice([1, 2, 3, 4]))
         out.append(("rendered", render(d, rng)))
     seeds = list(VALID_SEEDS)
-    seeds += [render(rand_text_doc(rng, 3), rng) for _ in range(12)]
+    seeds += [t for t in (render(rand_text_doc(rng, 3), rng) for _ in range(40)) if len(t) < 400][:12]
     for s in seeds:
         out.append(("seed", s))
         ms = mutations(s)
@@ -209,6 +239,7 @@ def text_stream(rng, n_docs, n_mut_per_seed, n_rand):
         out += rng.sample(rest, min(n_mut_per_seed, len(rest)))
     out += [("negative", t) for t in NEGATIVES]
     out += [("depth", t) for t in depth_family()]
+    out += [("scale", t) for t in scale_texts(rng)]
     out += [("unicode", rand_unicode(rng, rng.randrange(1, 12))) for _ in range(n_rand)]
     seen, res = set(), []
     for c, t in out:
@@ -305,12 +336,14 @@ def has_unpaired_surrogate_escape(text):
         i += 1
     return prev_high
 
+_LONGINT = re.compile(r"(?<![0-9.eE+-])-?[1-9][0-9]{308,}")      # an integer part of 309+ digits exceeds f64
+
 def serde_deviation(text, ref_depth):
     """why serde_json may reject a text that RFC 8259 admits (None = no known reason)"""
     if ref_depth is not None and ref_depth > 127:
         return "recursion limit 128"
     if _LONE.search(text) or has_unpaired_surrogate_escape(text):
         return "lone surrogate escape"
-    if _BIGEXP.search(text):
+    if _BIGEXP.search(text) or _LONGINT.search(text):
         return "number out of f64 range"
     return None
